@@ -79,6 +79,11 @@ def check(case):
     rec = o.record
     acts = o.actions
     nl = common.nonlog(o)
+    # ---------------- clause 0: the record itself (read before any rendering) carries what the renderings show in their headers
+    missing = sorted(k for k in ('title', 'rule_name', 'method', 'arithmetic_name', 'arithmetic_info', 'seats', 'nballots', 'quota',
+                                 'cids', 'ecids', 'cdict', 'options') if k not in (o.header_keys or ()))
+    if missing:
+        res.fail('record-header', 'record-header|missing|' + base, 'Election.record() right after the count lacks %s (the renderings show them)' % missing)
     method = rec['method']
     wd = set(case.get('withdrawn') or [])
     # ---------------- clause 1
